@@ -27,7 +27,7 @@ package play
 //@   loop 0 modifies result
 //@   loop 0 allocs []MIDINoteNumber
 //@   loop 0 invariant 0 - 1 <= rangeindex && rangeindex < len(attrs)
-//@   loop 0 invariant len(result) == 2 + rangeindex
+//@   loop 0 invariant len(result) == 2 + rangeindex && fresh(result.arr)
 //@   loop 0 invariant result[0] == spec.u8(rootOf(k, c) + spec.intervalSize(c.Base.Value, note.qual(c.Base.Name)) - 12)
 //@   loop 0 invariant forall(j, 0, rangeindex + 1, result[1+j] == spec.u8(rootOf(k, c) + spec.intervalSize(spec.dictNum(k.cmap, c.Chord.Name, j), spec.dictQual(k.cmap, c.Chord.Name, j))))
 //@   loop 0 invariant forall(j, 0, rangeindex + 1, spec.validInterval(spec.dictNum(k.cmap, c.Chord.Name, j), spec.dictQual(k.cmap, c.Chord.Name, j)))
